@@ -88,10 +88,10 @@ impl<N, E, Ix: IndexType> Acyclic<DiGraph<N, E, Ix>> {
                 // A graph with compact indices moves its last node into the
                 // freed slot: that node then needs its position under its
                 // new index.
+                /*+*/let ghost om0 = old(self).order_map; let ghost om1 = self.order_map; let ghost g0 = self.graph; let ghost l = g0.n() - 1; let ghost ni = n.i();/*-*/
                 let last = NodeIndex::new(self.graph.node_bound() - 1);
-                /*+*/let ghost om0 = old(self).order_map; let ghost om1 = self.order_map; let ghost g0 = self.graph; let ghost l = g0.n() - 1; let ghost ni = n.i();
-                proof { Ix::ix_bound(n.0); let ll: NodeIndex<Ix> = last; assert(ll.i() == l); old(self).lemma_node_in_range(ll); Ix::eq_law(); }/*-*/
                 let weight = self.graph.remove_node(n);
+                /*+*/proof { Ix::ix_bound(n.0); let ll: NodeIndex<Ix> = last; assert(ll.i() == l); old(self).lemma_node_in_range(ll); Ix::eq_law(); }/*-*/
                 if last != n && self.graph.node_weight(last).is_none() {
                     self.order_map.rename_node(last, n, &self.graph);
                 }
